@@ -243,13 +243,16 @@ class WebSocket(object):
             closing.
 
         """
-        if self.is_closed:
+        # The connection that is current now, another thread may call
+        # connect again before the close frame has been sent.
+        state = self.state
+        if state.closed:
             log.debug('%r already closed', self)
         else:
-            if not self.is_closing:
+            if not state.closing:
                 self._send_close(code, reason)
-                self.state.closing = True
-                self.state.sent_close_time = self.session.session_time
+                state.closing = True
+                state.sent_close_time = state.session.session_time
 
     def _on_close(self, message):
         """Close logic generator."""
